@@ -1874,7 +1874,7 @@ class BaseInterpreter(Generic[TContext, TEvent]):
             #    a rolled-back state with `after: {250: "timeout"}` would never
             #    time out again. Re-scheduling makes the rollback a true
             #    restore rather than a cosmetic one.
-            for node in snapshot_before:
+            for node in sorted(snapshot_before, key=lambda s: (s.depth, s.id)):
                 if node in states_to_exit:
                     self._schedule_state_tasks(node)
             raise
